@@ -27,11 +27,11 @@ import (
 
 // Scenario is anything the explorer can run.
 type Scenario interface {
-	ID() string            // stable identifier
-	Family() string        // scenario family (for fingerprints)
-	Describe() string      // human readable parameters
-	MaxBound() int         // preemption bound for this scenario
-	Body() func()          // thread-0 body; must rebuild all state on every call
+	ID() string       // stable identifier
+	Family() string   // scenario family (for fingerprints)
+	Describe() string // human readable parameters
+	MaxBound() int    // preemption bound for this scenario
+	Body() func()     // thread-0 body; must rebuild all state on every call
 	Check(ex *vs.Exec) (violation, outcome string)
 }
 
@@ -403,19 +403,19 @@ func report(prop, tier string, scs []Scenario, all []shardResult, infra string, 
 		minBound = -1
 	}
 	cov := map[string]any{
-		"states":                        states,
-		"transitions":                   trans,
-		"traces_validated_against_impl": execs,
-		"evaluations":                   execs,
-		"distinct_nontrivial":           len(outcomes),
-		"rule":                          "every schedule of every scenario up to the preemption bound is executed on the instrumented real code (each execution is a trace of the implementation itself); distinct_nontrivial counts distinct (family, per-call outcome vector) observed; states = distinct abstract synchronisation states (pending-op vector, channel fill/closed, clock) summed over scenarios; transitions = scheduling steps",
-		"samples":                       samples,
-		"scenarios":                     len(all),
-		"scenario_families":             fam,
-		"executions_per_family":         perFamExec,
-		"bound_completed_min":           minBound,
-		"exhaustive":                    !capped,
-		"violation_classes":             vlist,
+		"states":                               states,
+		"transitions":                          trans,
+		"traces_validated_against_impl":        execs,
+		"evaluations":                          execs,
+		"distinct_nontrivial":                  len(outcomes),
+		"rule":                                 "every schedule of every scenario up to the preemption bound is executed on the instrumented real code (each execution is a trace of the implementation itself); distinct_nontrivial counts distinct (family, per-call outcome vector) observed; states = distinct abstract synchronisation states (pending-op vector, channel fill/closed, clock) summed over scenarios; transitions = scheduling steps",
+		"samples":                              samples,
+		"scenarios":                            len(all),
+		"scenario_families":                    fam,
+		"executions_per_family":                perFamExec,
+		"bound_completed_min":                  minBound,
+		"exhaustive":                           !capped,
+		"violation_classes":                    vlist,
 		"supplementary_free_running_race_pass": fr,
 	}
 	ev := map[string]any{"property_id": prop, "tier": tier, "seed": seed(), "level": "model_checking", "coverage": cov,
